@@ -399,6 +399,20 @@ Definition to_nbt (m : msg) : tag := TComp (fields_of (is_nil (m_translate m)) m
 Definition wire (m : msg) : list N := enc_net (to_nbt m).
 Definition wire_named (m : msg) : list N := enc_named [] (to_nbt m).
 
+(* the checks the encoder of package nbt makes while writing (it returns an error, nothing of the value
+   reaches the caller of MarshalNBT): strings and names longer than MaxInt16, lists whose elements do
+   not all have the tag type of the first.  wire_opt / type_write_opt are WriteTo including that
+   outcome. *)
+Fixpoint enc_checks (t : tag) : bool :=
+  match t with
+  | TStr s => lenN s <? 2^15
+  | TList et items => forallb (fun x => (tag_id x =? et) && enc_checks x) items
+  | TComp fs => forallb (fun nf => (lenN (fst nf) <? 2^15) && enc_checks (snd nf)) fs
+  | _ => true
+  end.
+Definition wire_opt (m : msg) : option (list N) :=
+  if enc_checks (to_nbt m) then Some (wire m) else None.
+
 (* ------------------------------------------------------------------------------------------ *)
 (* NBT -> Message (model of UnmarshalNBT over the struct decoder), decoding INTO a destination *)
 (* ------------------------------------------------------------------------------------------ *)
@@ -724,6 +738,10 @@ Definition of_json (j : json) : option msg := of_json_into msg0 j.
 Definition type_write (id : Z) (sender : msg) (target : option msg) : list N :=
   write32 id ++ wire sender
   ++ match target with Some t => 1 :: wire t | None => [0] end.
+
+Definition type_write_opt (id : Z) (sender : msg) (target : option msg) : option (list N) :=
+  if enc_checks (to_nbt sender) && match target with Some t => enc_checks (to_nbt t) | None => true end
+  then Some (type_write id sender target) else None.
 
 Definition type_read (s : list N) : option (Z * msg * option msg * list N) :=
   match run_flat read32 s with
